@@ -184,6 +184,7 @@ CORPUS = {
         ('witness-bytes-first-blinding-only', 'fire', [(TR, '                for r in &opening.r {', '                for r in opening.r.iter().take(1) {')], 'R-C14-2'),
         ('no-rebuild-after-A', 'fire', [(TR, '''        self.transcript.validate_and_append_point(b"A", a)?;
 
+        // Update the RNG
         self.transcript_rng = Self::build_rng(self.transcript, self.bytes.as_ref(), self.external_rng);
 ''', '''        self.transcript.validate_and_append_point(b"A", a)?;
 ''')], 'R-C14-4'),
